@@ -27,6 +27,9 @@ pub struct Case {
   /// the observer of the stream of groups reports finished as soon as any group's subscriber
   /// has received a terminal (what a flattening consumer does when an inner stream fails)
   pub outer_finishes: bool,
+  /// Some(n): the observer of the stream of groups reports finished once it has been handed n
+  /// groups (what take(n) on the groups stream does) - it keeps accepting what it is handed
+  pub outer_takes: Option<usize>,
 }
 
 /// key whose hash only looks at the lowest bit
@@ -43,8 +46,15 @@ struct Outer<S> {
   log: Log,
   bystander: bool,
   done: Option<std::sync::Arc<std::sync::atomic::AtomicBool>>,
+  takes: Option<usize>,
+  announced: usize,
   pending: Option<std::sync::Arc<std::sync::Mutex<Vec<(i64, KeyObservable<i64, S>)>>>>,
   _s: std::marker::PhantomData<S>,
+}
+
+thread_local! {
+  /// early subscribers of late-mode cases: (key, unsubscribe)
+  static EARLY: std::cell::RefCell<Vec<(i64, Box<dyn FnOnce()>)>> = const { std::cell::RefCell::new(Vec::new()) };
 }
 
 fn arm_done(done: &Option<std::sync::Arc<std::sync::atomic::AtomicBool>>, probe: u32) {
@@ -67,10 +77,16 @@ macro_rules! impl_outer {
       fn next(&mut self, g: KeyObservable<i64, $subj>) {
         let key = g.key;
         self.log.mark(1, "group", key);
-        if self.bystander {
+        self.announced += 1;
+        if self.bystander && self.pending.is_none() {
           g.clone().actual_subscribe(Probe::new(300 + key as u32, &self.log)).unsubscribe();
         }
         if let Some(p) = &self.pending {
+          if self.bystander {
+            // an early subscriber that sees the group's first items and leaves when the late ones join
+            let u = g.clone().actual_subscribe(Probe::new(300 + key as u32, &self.log));
+            EARLY.with(|e| e.borrow_mut().push((key, Box::new(move || u.unsubscribe()))));
+          }
           // subscribed later by the driver
           p.lock().unwrap().push((key, g));
           return;
@@ -86,7 +102,7 @@ macro_rules! impl_outer {
         self.log.push(1, K::N(N::Complete));
       }
       fn is_finished(&self) -> bool {
-        self.done.as_ref().map_or(false, |d| d.load(std::sync::atomic::Ordering::SeqCst))
+        self.done.as_ref().map_or(false, |d| d.load(std::sync::atomic::Ordering::SeqCst)) || self.takes.map_or(false, |n| self.announced >= n)
       }
     }
   };
@@ -100,6 +116,7 @@ macro_rules! impl_outer_ck {
       fn next(&mut self, g: KeyObservable<CK, $subj>) {
         let key = g.key.0;
         self.log.mark(1, "group", key);
+        self.announced += 1;
         if self.bystander {
           g.clone().actual_subscribe(Probe::new(300 + key as u32, &self.log)).unsubscribe();
         }
@@ -113,7 +130,7 @@ macro_rules! impl_outer_ck {
         self.log.push(1, K::N(N::Complete));
       }
       fn is_finished(&self) -> bool {
-        self.done.as_ref().map_or(false, |d| d.load(std::sync::atomic::Ordering::SeqCst))
+        self.done.as_ref().map_or(false, |d| d.load(std::sync::atomic::Ordering::SeqCst)) || self.takes.map_or(false, |n| self.announced >= n)
       }
     }
   };
@@ -129,6 +146,7 @@ pub fn observe(c: &Case) -> Result<Vec<Ev>, String> {
     let bystander = c.bystander;
     let coarse = c.coarse;
     let script = c.script.clone();
+    EARLY.with(|e| e.borrow_mut().clear());
     let late = c.late;
     let done: Option<std::sync::Arc<std::sync::atomic::AtomicBool>> = if c.outer_finishes { Some(Default::default()) } else { None };
     macro_rules! go {
@@ -157,7 +175,7 @@ pub fn observe(c: &Case) -> Result<Vec<Ev>, String> {
               }
             }
           })
-          .actual_subscribe(Outer::<$subj> { log: log.clone(), bystander, done: done.clone(), pending: pending.clone(), _s: Default::default() });
+          .actual_subscribe(Outer::<$subj> { log: log.clone(), bystander, done: done.clone(), takes: c.outer_takes, announced: 0, pending: pending.clone(), _s: Default::default() });
         } else if coarse {
           let mut src = Subject::<'static, V, E>::default();
           src
@@ -172,7 +190,7 @@ pub fn observe(c: &Case) -> Result<Vec<Ev>, String> {
                 })
               }
             })
-            .actual_subscribe(Outer::<$subj> { log: log.clone(), bystander, done: done.clone(), pending: pending.clone(), _s: Default::default() });
+            .actual_subscribe(Outer::<$subj> { log: log.clone(), bystander, done: done.clone(), takes: c.outer_takes, announced: 0, pending: pending.clone(), _s: Default::default() });
           for n in script.clone() {
             match n {
               N::Next(v) => src.next(v),
@@ -194,7 +212,7 @@ pub fn observe(c: &Case) -> Result<Vec<Ev>, String> {
                 }
               }
             })
-            .actual_subscribe(Outer::<$subj> { log: log.clone(), bystander, done: done.clone(), pending: pending.clone(), _s: Default::default() });
+            .actual_subscribe(Outer::<$subj> { log: log.clone(), bystander, done: done.clone(), takes: c.outer_takes, announced: 0, pending: pending.clone(), _s: Default::default() });
           // (key, events still to wait, handle)
           let mut waiting: Vec<(i64, usize, KeyObservable<i64, $subj>)> = vec![];
           for n in script {
@@ -215,8 +233,19 @@ pub fn observe(c: &Case) -> Result<Vec<Ev>, String> {
               for (k, left, g) in waiting.drain(..) {
                 if left == 0 {
                   log.mark(1, "late_subscribe", k);
+                  // the early subscriber of this group (if any) leaves, then TWO newcomers join at once
+                  let early: Vec<Box<dyn FnOnce()>> = EARLY.with(|e| {
+                    let mut v = e.borrow_mut();
+                    let (mine, rest): (Vec<_>, Vec<_>) = v.drain(..).partition(|(kk, _)| *kk == k);
+                    *v = rest;
+                    mine.into_iter().map(|(_, u)| u).collect()
+                  });
+                  for u in early {
+                    u();
+                  }
                   arm_done(&done, 100 + k as u32);
-                  g.actual_subscribe(Probe::new(100 + k as u32, &log));
+                  g.clone().actual_subscribe(Probe::new(100 + k as u32, &log));
+                  g.actual_subscribe(Probe::new(200 + k as u32, &log));
                 } else {
                   rest.push((k, left, g));
                 }
@@ -319,20 +348,35 @@ pub fn judge(c: &Case, o: &Result<Vec<Ev>, String>) -> Option<(String, serde_jso
   }
   for k in &keys {
     let saw: Vec<N> = evs.iter().filter(|e| e.id == 100 + *k as u32).filter_map(|e| if let K::N(n) = &e.k { Some(n.clone()) } else { None }).collect();
-    if &saw != per.get(k).unwrap() {
+    // once the consumer of the groups stream has finished (take(n) on it), a source that
+    // consults is_finished may stop driving the pipeline and a Subject withholds its terminal:
+    // the groups are then only owed a prefix of their items (announcements stay exact)
+    let want = per.get(k).unwrap();
+    let relaxed_ok = c.outer_takes.is_some() && saw.len() <= want.len() && want[..saw.len()] == saw[..];
+    if &saw != want && !relaxed_ok {
       let kind = if grammar_violation(&saw).is_some() { "group_malformed" } else { "group_wrong_items" };
       return Some((kind.into(), show(format!("group {} saw {:?}, expected {:?}", k, saw, per.get(k).unwrap()))));
     }
   }
+  // late mode: the twin newcomer (probe 200+key) joined together with probe 100+key
+  if late.is_some() {
+    for k in &keys {
+      let a: Vec<N> = evs.iter().filter(|e| e.id == 100 + *k as u32).filter_map(|e| if let K::N(n) = &e.k { Some(n.clone()) } else { None }).collect();
+      let b: Vec<N> = evs.iter().filter(|e| e.id == 200 + *k as u32).filter_map(|e| if let K::N(n) = &e.k { Some(n.clone()) } else { None }).collect();
+      if a != b {
+        return Some(("group_wrong_items".into(), show(format!("two subscribers joined group {} at the same moment; one saw {:?}, the other {:?}", k, a, b))));
+      }
+    }
+  }
   // no group probe for an unknown key
   for e in evs {
-    if e.id >= 100 && e.id < 300 && !keys.contains(&((e.id - 100) as i64)) {
+    if e.id >= 100 && e.id < 200 && !keys.contains(&((e.id - 100) as i64)) {
       return Some(("item_to_wrong_group".into(), show(format!("observer of key {} received {:?}", e.id - 100, e.k))));
     }
   }
   let outer: Vec<N> = evs.iter().filter(|e| e.id == 1).filter_map(|e| if let K::N(n) = &e.k { Some(n.clone()) } else { None }).collect();
   let want: Vec<N> = term.into_iter().collect();
-  if outer != want {
+  if outer != want && !(c.outer_takes.is_some() && outer.is_empty()) {
     return Some(("outer_wrong_terminal".into(), show(format!("stream of groups saw {:?}, expected {:?}", outer, want))));
   }
   None
@@ -386,7 +430,10 @@ fn check(cfg: &Cfg, rep: &mut Report, id: &str, c: &Case) {
   if c.outer_finishes {
     rep.count("cases_where_the_outer_observer_finishes_during_the_terminal", 1);
   }
-  let res = judge(c, &o).or_else(|| if !c.cold && c.chunk.is_none() && !c.coarse && !c.bystander && c.late.is_none() && !c.outer_finishes { flatten_check(c) } else { None });
+  if c.outer_takes.is_some() {
+    rep.count("cases_where_the_outer_observer_finishes_after_n_groups", 1);
+  }
+  let res = judge(c, &o).or_else(|| if !c.cold && c.chunk.is_none() && !c.coarse && !c.bystander && c.late.is_none() && !c.outer_finishes && c.outer_takes.is_none() { flatten_check(c) } else { None });
   if let Some((kind, detail)) = res {
     rep.violation(&kind, if c.threads_subject { "group_by[SubjectThreads]" } else { "group_by[Subject]" }, id, json!({"case": format!("{:?}", c), "result": detail}));
   } else if let Ok(evs) = &o {
@@ -414,11 +461,11 @@ pub fn run(cfg: &Cfg, rep: &mut Report) {
           if cold && idx % 4 != 0 {
             continue;
           }
-          check(cfg, rep, &format!("enum:{}", idx), &Case { key: key.clone(), script: s.clone(), threads_subject, cold, chunk: None, coarse: false, bystander: false, late: if !cold && idx % 5 == 0 { Some(idx % 3) } else { None }, outer_finishes: idx % 7 == 0 });
+          check(cfg, rep, &format!("enum:{}", idx), &Case { key: key.clone(), script: s.clone(), threads_subject, cold, chunk: None, coarse: false, bystander: false, late: if !cold && idx % 5 == 0 { Some(idx % 3) } else { None }, outer_finishes: idx % 7 == 0, outer_takes: if idx % 6 == 0 { Some(1 + idx % 3) } else { None } });
           if *key == KeyF::Const {
             // the same scripts with the stateful discriminators in place of the constant one
             for n in [1i64, 2, 3] {
-              check(cfg, rep, &format!("enum:{}:chunk{}", idx, n), &Case { key: key.clone(), script: s.clone(), threads_subject, cold, chunk: Some(n), coarse: !cold && idx % 2 == 0, bystander: idx % 3 == 0, late: None, outer_finishes: idx % 4 == 0 });
+              check(cfg, rep, &format!("enum:{}:chunk{}", idx, n), &Case { key: key.clone(), script: s.clone(), threads_subject, cold, chunk: Some(n), coarse: !cold && idx % 2 == 0, bystander: idx % 3 == 0, late: None, outer_finishes: idx % 4 == 0, outer_takes: None });
             }
           }
         }
@@ -443,6 +490,7 @@ pub fn run(cfg: &Cfg, rep: &mut Report) {
       bystander: r.chance(1, 3),
       late: if r.chance(1, 4) { Some(r.below(3)) } else { None },
       outer_finishes: r.chance(1, 4),
+      outer_takes: if r.chance(1, 4) { Some(1 + r.below(3)) } else { None },
     };
     check(cfg, rep, &format!("rand:{}", i), &c);
   }
